@@ -152,6 +152,14 @@ int main()
 			for (size_t i = 0; i < n; ++i) os << ull(b[i].h) << " " << b[i].id << " ";
 			printf("%s%s%s| %s\n", g_oob ? "OOB " : "", g_selfswap ? "SELFSWAP " : "", os.str().c_str(), trace_str().c_str());
 		}
+		else if (cmd == "IPF")
+		{	// the iterator -> hash adaptors: IterHashFunc (plain), IterPrehashFunc forward and reverse_iterator overloads.  IPF v n pairs i
+			std::string var; size_t n; is >> var >> n; Arr a; a.read_pairs(is, n); size_t i; is >> i;
+			a.query = Item{ 0, 0, -1 }; a.arm(n); g_trace = false; Item* b = a.base();
+			HF hf; HashSorter::IterHashFunc<HF> ih(hf);
+			HashSorter::IterPrehashFunc<Item*, const uint64_t*> ip(b, a.hbase());
+			printf("%llu %llu %llu%s\n", ull(ih(b + i)), ull(ip(b + i)), ull(ip(std::reverse_iterator<Item*>(b + i + 1))), g_oob ? " OOB" : "");
+		}
 		else if (cmd == "BIGM")
 		{	// one FindPrehashed + GetBoundsPrehashed on a formula-defined array of n items (also computable by the model
 			// driver): BIGM n pos mode ; item i has id i/2, ids 3k and 3k+1 share the hash 3k * 2 * floor((2^64-1)/n)
